@@ -54,13 +54,18 @@ fn start() -> Result<Vec<Server>, String> {
 
 /// Sends one request to all four servers; returns their answers.
 fn ask(kind: char, bytes: &[u8]) -> Result<Vec<(&'static str, String)>, String> {
+    ask_line(&format!("{kind} {}\n", hex(bytes)))
+}
+
+/// Sends one raw request line to all four servers; returns their answers.
+pub fn ask_line(req: &str) -> Result<Vec<(&'static str, String)>, String> {
+    let req = req.to_string();
     SERVERS.with(|s| {
         let mut s = s.borrow_mut();
         if s.is_none() {
             *s = Some(start()?);
         }
         let servers = s.as_mut().unwrap();
-        let req = format!("{kind} {}\n", hex(bytes));
         for sv in servers.iter_mut() {
             sv.stdin.write_all(req.as_bytes()).and_then(|_| sv.stdin.flush()).map_err(|e| format!("{}: {e}", sv.name))?;
         }
